@@ -1065,6 +1065,17 @@ func init() {
 		}
 	}
 
+	// --- math/bits ---
+	reg("math/bits.Len64", func(e *Exec, g *G, fn *ssa.Function, args []Value) (Value, bool) {
+		return e.tt.BitsLen64(args[0].(*Term)), true
+	})
+	reg("math/bits.Len32", func(e *Exec, g *G, fn *ssa.Function, args []Value) (Value, bool) {
+		return e.tt.BitsLen64(e.tt.ZExt(64, args[0].(*Term))), true
+	})
+	reg("math/bits.Len", func(e *Exec, g *G, fn *ssa.Function, args []Value) (Value, bool) {
+		return e.tt.BitsLen64(args[0].(*Term)), true
+	})
+
 	// --- misc ---
 	reg("os.Exit", func(e *Exec, g *G, fn *ssa.Function, args []Value) (Value, bool) {
 		e.fail(OutExit, "os.Exit")
